@@ -25,6 +25,7 @@ pub fn prop() -> Prop {
             Sub::tape("ellipse", 40, 100_000, 5_000_000, |d, cx| run(d, cx, 2)),
             Sub::tape("rounded_rectangle", 72, 140_000, 7_000_000, |d, cx| run(d, cx, 3)),
             Sub::tape("large", 72, 3_000, 150_000, |d, cx| { let k = d.u(0, 3); run(d, cx, k + 100) }),
+            Sub::tape("huge_sampled_rows", 1400, 1_200, 60_000, huge),
         ],
     }
 }
@@ -324,4 +325,162 @@ fn small_shapes_grid(ex: &Ex) {
             ex.sample(|| format!("item {}: all stroke widths x 3 alignments x 3 colour combinations", i));
         }
     });
+}
+
+
+// ---------------------------------------------------------------------------------------------
+// Shapes of 1025..=20000 px, judged on sampled rows
+// ---------------------------------------------------------------------------------------------
+
+/// Size of a huge shape: 1025..=20000, a third of them next to a power of two or to the squares /
+/// products that a 16, 24 or 32 bit intermediate can just hold (4096 = 2^12: d^2 = 2^24; 6886^2 ~ 2^25.5;
+/// 11585^2 ~ 2^27; 16384 = 2^14).
+pub fn huge_size(d: &mut Dec) -> u32 {
+    match d.u(0, 2) {
+        0 => {
+            let b = d.pick(&[1024u32, 2048, 2896, 4096, 5793, 6886, 8192, 11585, 16384, 19999]);
+            (b as i32 + d.i(-3, 3)).clamp(1025, 20000) as u32
+        }
+        1 => d.u(1025, 6000),
+        _ => d.u(1025, 20000),
+    }
+}
+
+fn huge(d: &mut Dec, cx: &mut Cx) -> Res {
+    if d.bool() {
+        huge_c::<Rgb888>(d, cx)
+    } else {
+        huge_c::<BinaryColor>(d, cx)
+    }
+}
+
+fn huge_c<C: Col>(d: &mut Dec, cx: &mut Cx) -> Res {
+    let kind = d.u(0, 3);
+    let (w, h) = match d.u(0, 3) {
+        0 => (huge_size(d), d.u(1, 80)),
+        1 => (d.u(1, 80), huge_size(d)),
+        _ => (huge_size(d), huge_size(d)),
+    };
+    // position: centred on the origin or anywhere such that every coordinate stays within +-30000
+    let tl = if d.bool() { Point::new(-(w as i32) / 2 + d.i(-3, 3), -(h as i32) / 2 + d.i(-3, 3)) } else { Point::new(d.i(-29_000, 29_000 - w as i32 - 700), d.i(-29_000, 29_000 - h as i32 - 700)) };
+    let shape = match kind {
+        0 => Shape::Rect(Rectangle::new(tl, Size::new(w, h))),
+        1 => Shape::Circle(Circle::new(tl, w)),
+        2 => Shape::Ellipse(Ellipse::new(tl, Size::new(w, h))),
+        _ => {
+            // radii that fit (no confining: the areas of confined rounded rectangles are the known finding F-26)
+            let (l, r) = { let a = d.u(0, w); (a, d.u(0, w - a)) };
+            let (l2, r2) = { let a = d.u(0, w); (a, d.u(0, w - a)) };
+            let (tp, bt) = { let a = d.u(0, h); (a, d.u(0, h - a)) };
+            let (tp2, bt2) = { let a = d.u(0, h); (a, d.u(0, h - a)) };
+            Shape::RRect(RoundedRectangle::new(
+                Rectangle::new(tl, Size::new(w, h)),
+                CornerRadii { top_left: Size::new(l, tp), top_right: Size::new(r, tp2), bottom_right: Size::new(r2, bt2), bottom_left: Size::new(l2, bt) },
+            ))
+        }
+    };
+    let mut style = gen::style::<C>(d, 300);
+    if d.ratio(1, 3) {
+        style.stroke_width = d.u(300, 3000);
+    }
+    cx.describe(|| format!("{:?} {} [{}]", shape, gen::style_desc(&style), C::NAME));
+    cx.class(shape.kind());
+    macro_rules! go {
+        ($p:expr) => {{
+            let p = $p;
+            let kind = shape.kind();
+            let s = p.into_styled(style);
+            let (fa, sa) = (s.fill_area(), s.stroke_area());
+            let bb = s.bounding_box();
+            let pb = p.bounding_box();
+            // sampled rows: the edges of the shape box and of the styled box, the stroke / fill transitions, the
+            // centre, the corner rows and random rows
+            let (y0, y1) = (bb.top_left.y.min(pb.top_left.y), (bb.top_left.y + bb.size.height as i32).max(pb.top_left.y + pb.size.height as i32));
+            let mut rows: std::collections::BTreeSet<i32> = Default::default();
+            let sw = style.stroke_width as i32;
+            for base in [y0, y1, pb.top_left.y, pb.top_left.y + pb.size.height as i32, pb.top_left.y + sw, pb.top_left.y + pb.size.height as i32 - sw, pb.top_left.y + sw / 2, pb.top_left.y + (pb.size.height / 2) as i32] {
+                for k in -2..=2 {
+                    rows.insert(base + k);
+                }
+            }
+            for _ in 0..20 {
+                rows.insert(d.i(y0 - 3, y1 + 3));
+            }
+            let mut t = RowsT::<C>::new(rows.iter().copied());
+            s.draw(&mut t).map_err(|e| Fail { sig: format!("{}:draw_error", kind), detail: format!("{:?}", e) })?;
+            let expected = |q: Point| -> Option<C> {
+                if fa.contains(q) {
+                    style.fill_color
+                } else if sa.contains(q) && style.stroke_width > 0 {
+                    style.stroke_color
+                } else {
+                    None
+                }
+            };
+            let (x0, x1) = (bb.top_left.x.min(pb.top_left.x), (bb.top_left.x + bb.size.width as i32).max(pb.top_left.x + pb.size.width as i32));
+            let (mut fill_rows, mut stroke_rows) = (0, 0);
+            for &y in &rows {
+                let mut probes: std::collections::BTreeSet<i32> = Default::default();
+                let mut near = |x: i32| {
+                    for k in -2..=2 {
+                        probes.insert(x + k);
+                    }
+                };
+                near(x0);
+                near(x1);
+                near((x0 + x1) / 2);
+                for x in t.run_ends(y) {
+                    near(x);
+                }
+                // the boundaries of both areas in this row, by bisection from the box edges towards the middle
+                // (only a way to find interesting probes: every probe is judged by the areas themselves)
+                for area_is_fill in [false, true] {
+                    let inside = |x: i32| if area_is_fill { fa.contains(Point::new(x, y)) } else { sa.contains(Point::new(x, y)) };
+                    let mid = (x0 + x1) / 2;
+                    if inside(mid) {
+                        let (mut lo, mut hi) = (x0 - 2, mid);
+                        while hi - lo > 1 {
+                            let m = lo + (hi - lo) / 2;
+                            if inside(m) { hi = m } else { lo = m }
+                        }
+                        near(hi);
+                        let (mut lo, mut hi) = (mid, x1 + 2);
+                        while hi - lo > 1 {
+                            let m = lo + (hi - lo) / 2;
+                            if inside(m) { lo = m } else { hi = m }
+                        }
+                        near(lo);
+                    }
+                }
+                for _ in 0..6 {
+                    probes.insert(d.i(x0 - 3, x1 + 3));
+                }
+                for &x in &probes {
+                    let q = Point::new(x, y);
+                    let (exp, got) = (expected(q), t.color_at(q));
+                    if exp == style.fill_color && exp.is_some() && fa.contains(q) { fill_rows += 1; }
+                    if exp.is_some() && !fa.contains(q) { stroke_rows += 1; }
+                    if exp != got && kind == "rounded_rectangle" {
+                        // F-26 (known finding): points where fill area / shape / stroke area are not nested
+                        let (f, sh, st) = (fa.contains(q), p.contains(q), sa.contains(q));
+                        if (f && !sh) || (f && !st) || (sh && !st) {
+                            return fail("rounded_rectangle:areas_not_nested", format!("fill_area() / the shape / stroke_area() are not nested at {:?} (fill {}, shape {}, stroke {}), and draw() differs from the areas there: leaves {:?}, areas give {:?}", q, f, sh, st, got, exp));
+                        }
+                    }
+                    ensure!(exp == got, format!("{}:draw_vs_areas", kind), "{:?}: draw() leaves {:?}, fill_area()/stroke_area() give {:?} (fill_area contains: {}, stroke_area contains: {})", q, got, exp, fa.contains(q), sa.contains(q));
+                }
+            }
+            cx.count("huge_probe_points_fill", fill_rows);
+            cx.count("huge_probe_points_stroke", stroke_rows);
+            cx.nontrivial(fill_rows > 0 && stroke_rows > 0);
+            Ok(())
+        }};
+    }
+    match &shape {
+        Shape::Rect(p) => go!(*p),
+        Shape::Circle(p) => go!(*p),
+        Shape::Ellipse(p) => go!(*p),
+        Shape::RRect(p) => go!(*p),
+        _ => unreachable!(),
+    }
 }
